@@ -1,26 +1,158 @@
-"""C08 — decided on the shared gen-driver (checks/gendrive.py)."""
+"""C08 — decided on the shared gen-driver (checks/gendrive.py) plus choose_compatible_weight in isolation."""
+import sys
+
 from . import gendrive
 from .gendrive_meta import META
 
 PROPERTY = "C08"
-FUNCTIONS = gendrive_functions = META["functions"]
-EXPLANATION = META["C08"]["explanation"]
+FUNCTIONS = gendrive_functions = META["functions"] + ["gbigsmiles.core.choose_compatible_weight in isolation (k arbitrary descriptor states)"]
+EXPLANATION = META["C08"]["explanation"] + (
+    " In isolation: choose_compatible_weight runs on a list of k descriptors in ARBITRARY constructor-producible states (symbol, any id, any of the five "
+    "bond orders, any weight >= 0 including exact zeros and exact ties) and an arbitrary open descriptor (or none); on every path z3 proves that the options "
+    "handed to the generator are exactly the descriptors the conjugation rule admits, that their probabilities are w_i / sum(w) (uniform when all weights "
+    "are equal, all zero included), that they sum to 1, that the returned index is the option the generator picked, and that no weight was modified."
+)
 ASSUMPTIONS = META["assumptions"]
-OUTSIDE = META["C08"]["outside"]
-REQUIRED_LABELS = META["C08"]["required"]
+OUTSIDE = META["C08"]["outside"] + ["isolation: lists longer than 3 (quick) / 5 (thorough) descriptors"]
+REQUIRED_LABELS = META["C08"]["required"] + ["isolated: options are the compatible descriptors", "isolated: pick probability follows the weights",
+                                           "isolated: probabilities sum to 1", "isolated: weights untouched"]
 
 
 def bounds(tier):
-    return META["bounds"](tier)
+    b = dict(META["bounds"](tier))
+    b["isolated choose_compatible_weight"] = "k <= 3 (quick) / 5 (thorough) descriptors in arbitrary states; weights any real >= 0 (zeros and ties included)"
+    return b
 
 
 def cases(tier):
-    return gendrive.gen_cases(tier)
+    out = gendrive.gen_cases(tier)
+    kmax = 3 if tier == "quick" else 5
+    for k in range(1, kmax + 1):
+        for bond in ("none", "state"):
+            if k >= 4 and bond == "state":
+                # shard the largest lists by the kind of the first descriptor
+                for kind0 in (0, 1, 2):
+                    out.append({"name": f"isolated/k{k}/{bond}/first{kind0}", "iso": True, "k": k, "bond": bond, "kind0": kind0})
+            else:
+                out.append({"name": f"isolated/k{k}/{bond}", "iso": True, "k": k, "bond": bond})
+    return out
 
 
 def run_case(case, g, tier, res):
+    if case.get("iso"):
+        return run_isolated(case, g, tier, res)
     gendrive.run_gen_case(case, g, tier, res, PROPERTY, {PROPERTY}, budget_s=META["budget"](tier))
 
 
+def run_isolated(case, g, tier, res):
+    from symx import core
+    from symx.core import And, Implies, Not
+    from symx.rng import SymRng
+    from .common import sym_descriptor_state, rule_formula, state_text, collector, explore_case
+
+    core_mod = sys.modules["gbigsmiles.core"]
+    k, bondkind = case["k"], case["bond"]
+
+    def h(c):
+        bds, infos = [], []
+        for i in range(k):
+            bd, info = sym_descriptor_state(c, g, f"d{i}", with_weight=True)
+            if i == 0 and "kind0" in case:
+                kind = 0 if info["sym"] == "" else (1 if isinstance(info["id"], str) else 2)
+                if kind != case["kind0"]:
+                    raise core.Infeasible()
+            bds.append(bd)
+            infos.append(info)
+        if bondkind == "none":
+            bond, ibond = None, None
+        else:
+            bond, ibond = sym_descriptor_state(c, g, "bond", with_weight=True)
+        w0 = [bd.weight for bd in bds]
+        seen = []
+        rng = SymRng(on_choice=lambda rec, cc: seen.append(rec))
+
+        def detail(what):
+            def build(mv, c):
+                texts = [state_text(i, mv, c) for i in infos]
+                bt = None if ibond is None else state_text(ibond, mv, c)
+                pick = rng.calls[-1].index if rng.calls else None
+                return (f"C08:isolated:{what}", f"choose_compatible_weight({texts}, {bt}): {what}",
+                        {"kind": "isolated", "list": [list(t) for t in texts], "bond": None if bt is None else list(bt), "what": what, "pick": pick})
+            return build
+
+        adm = [True if ibond is None else rule_formula(ibond, infos[i]) for i in range(k)]
+        try:
+            idx = core_mod.choose_compatible_weight(bds, bond, rng)
+        except ValueError:
+            # numpy refuses an empty option list: only when nothing is compatible
+            c.prove(Not(core.Or(*adm)) if k else True, "isolated: refusal only when nothing is compatible", detail("raised although a compatible descriptor exists"))
+            return "refused"
+        rec = seen[-1] if seen else None
+        ok = rec is not None and len(seen) == 1
+        c.prove(ok, "isolated: exactly one draw", detail("not exactly one rng.choice call"))
+        items = [int(x) for x in rec.items]
+        for i in range(k):
+            c.prove(adm[i] == (i in items), "isolated: options are the compatible descriptors", detail("options differ from the compatible descriptors"))
+        c.prove(items == sorted(set(items)) and rec.p is not None and len(rec.p) == len(items), "isolated: option list well formed", detail("option list / probability vector malformed"))
+        ws = [w0[i] for i in items]
+        S = gendrive.total(ws)
+        eq = And(*[w == ws[0] for w in ws[1:]]) if len(ws) > 1 else True
+        for j, i in enumerate(items):
+            c.prove(And(Implies(eq, rec.p[j] * len(ws) == 1), Implies(Not(eq), rec.p[j] * S == ws[j])), "isolated: pick probability follows the weights",
+                    detail("probability differs from w_i / sum(w) (uniform for equal weights)"))
+        c.prove(gendrive.total(list(rec.p)) == 1, "isolated: probabilities sum to 1", detail("probabilities do not sum to 1"))
+        c.prove(int(idx) == items[rng.calls[-1].index], "isolated: returned index is the generator's pick", detail("returned index is not the option the generator picked"))
+        c.prove(And(*[bd.weight == w for bd, w in zip(bds, w0)]), "isolated: weights untouched", detail("a descriptor weight was modified by the pick"))
+        return items
+
+    explore_case(res, h, tier, on_path=collector(res, PROPERTY), budget_s=META["budget"](tier))
+
+
 def replay(rp, gb):
+    if rp.get("kind") == "isolated":
+        return replay_isolated(rp, gb)
     return gendrive.replay_gen(rp, gb)
+
+
+def replay_isolated(rp, gb):
+    import numpy as np
+    from gbigsmiles.core import choose_compatible_weight
+    from .C03 import _parse_ref, _rule
+
+    bds = [gb.BondDescriptor(t, 0, p, 0) for p, t in rp["list"]]
+    refs = [_parse_ref(p, t) for p, t in rp["list"]]
+    if rp["bond"] is None:
+        bond, adm = None, list(range(len(bds)))
+    else:
+        bond = gb.BondDescriptor(rp["bond"][1], 0, rp["bond"][0], 0)
+        rb = _parse_ref(*rp["bond"])
+        adm = [i for i, r in enumerate(refs) if _rule(rb, r)]
+    w0 = [float(b.weight) for b in bds]
+    seen = []
+    rng = gendrive.ScriptedRng([rp.get("pick") or 0], on_choice=lambda rec, c: seen.append(rec))
+    problems = []
+    try:
+        idx = choose_compatible_weight(bds, bond, rng)
+    except (ValueError, gendrive.ReplayDone) as e:
+        if adm and isinstance(e, ValueError):
+            problems.append("raised although a compatible descriptor exists")
+        return bool(problems), f"{type(e).__name__}; {problems}"
+    if len(seen) != 1:
+        problems.append("not exactly one rng.choice call")
+    else:
+        rec = seen[0]
+        items = [int(x) for x in rec.items]
+        if items != adm:
+            problems.append(f"options {items} differ from the compatible descriptors {adm}")
+        elif rec.p is None or len(rec.p) != len(items):
+            problems.append("probability vector malformed")
+        else:
+            ws = [w0[i] for i in items]
+            ref = [1.0 / len(ws)] * len(ws) if all(w == ws[0] for w in ws) else [w / sum(ws) for w in ws]
+            if any(abs(a - b) > 1e-9 for a, b in zip(rec.p, ref)):
+                problems.append(f"probabilities {rec.p} differ from {ref}")
+            if int(idx) != items[rng.calls[-1].index]:
+                problems.append("returned index is not the generator's pick")
+    if [float(b.weight) for b in bds] != w0:
+        problems.append("a descriptor weight was modified")
+    return bool(problems), f"{problems}"
